@@ -4,7 +4,7 @@ PROP = dict(
     level="proof",
     lean_modules=["PopsModel.Props.C07", "PopsModel.Props.NonVacuous.Calendar"],
     theorems=["Pops.C07_valid", "Pops.C07_increasing", "Pops.C07_order", "Pops.C07_tiles",
-              "Pops.C07_partition", "Pops.C07_day_steps"],
+              "Pops.C07_partition", "Pops.C07_day_steps", "Pops.C07_month_step", "Pops.C07_month_steps"],
     commands=["date.*", "sched", "lookup", "unit"],
     runs={
         "quick": [("h_date", "single-sample", 0, 2500), ("h_date", "sched", 0, 2000), ("h_date", "tables", 0, 94)],
